@@ -229,6 +229,14 @@ def make_helpers(exe):
             p = p.with_(idx=p.idx + (0,), ct=p.ct.of)
         return x._deref(exe._normalize(p).with_(idx=exe._normalize(p).idx[:-1] + (narrow_idx(exe, j),)))
 
+    def tagat(x, j):
+        """ghost label of element j (relative to the pointer view x)."""
+        p = x._p
+        if isinstance(p.ct, TArr):
+            p = p.with_(idx=p.idx + (0,), ct=p.ct.of)
+        q = exe.ptr_add(p, narrow_idx(exe, j))
+        return x._st.load(exe.tag_loc(q))
+
     def imin(a, b):
         return z3.If(a <= b, a, b)
 
@@ -289,7 +297,7 @@ def make_helpers(exe):
         return z3.BoolVal(a._p.obj is b._p.obj)
 
     return dict(And=h_and, Or=h_or, Not=h_not, implies=h_implies, ite=h_ite, iff=h_iff, forall=forall,
-                exists=exists, u64=u64, is_pow2=is_pow2, arr=arr, off=off, NULL=NULL, pmod=pmod, elem=elem, imin=imin, imax=imax,
+                exists=exists, u64=u64, is_pow2=is_pow2, arr=arr, off=off, NULL=NULL, pmod=pmod, elem=elem, tagat=tagat, imin=imin, imax=imax,
                 iabs=iabs, lit=lit, sizeof=sizeof, num_of_int=num_of_int, byte_of_num=byte_of_num, bool_of_num=bool_of_num, num_zero=num_zero, trunc=trunc, isnan=isnan, fp=fp, real=real, same_obj=same_obj,
                 true=z3.BoolVal(True), false=z3.BoolVal(False), z3=z3, Select=z3.Select, Store=z3.Store,
                 fpLT=z3.fpLT, fpLEQ=z3.fpLEQ, fpGT=z3.fpGT, fpGEQ=z3.fpGEQ, fpEQ=z3.fpEQ, fpAbs=z3.fpAbs,
@@ -442,13 +450,12 @@ class Env:
             return v(mode) if callable(v) and getattr(v, '_per_mode', False) else v
         if (name + '__' + mode) in self.extra:
             return self.extra[name + '__' + mode]
-        if name in STATE_HELPERS:
-            st = self.states.get(mode)
-            if st is None:
-                raise SpecError('%s(...) not available here' % mode)
-            return STATE_HELPERS[name](self.exe, st)
-        if name in self.helpers:
-            return self.helpers[name]
+        if name not in self.defs:
+            st0 = self.states.get(mode)
+            if st0 is not None:
+                r0 = self.resolver(name, st0)
+                if r0 is not _MISSING:
+                    return r0        # parameters / locals of the function shadow generic helper names (not contract definitions)
         if name in self.defs:
             if (name, mode) in self._active:
                 raise SpecError('recursive definition ' + name)
@@ -457,6 +464,13 @@ class Env:
                 return self.eval(self.defs[name], mode)
             finally:
                 self._active.discard((name, mode))
+        if name in STATE_HELPERS:
+            st = self.states.get(mode)
+            if st is None:
+                raise SpecError('%s(...) not available here' % mode)
+            return STATE_HELPERS[name](self.exe, st)
+        if name in self.helpers:
+            return self.helpers[name]
         if name in ('range', 'len', 'min', 'max', 'abs', 'sum', 'all', 'any', 'int'):
             return {'range': range, 'len': len, 'min': min, 'max': max, 'abs': abs, 'sum': sum, 'all': all, 'any': any, 'int': int}[name]
         st = self.states.get(mode)
@@ -511,14 +525,19 @@ def fn_resolver(exe, fn_name):
     """names = parameters and locals of the function (read from the state's cells)."""
     fn = exe.tu.functions[fn_name]
     decls = {}
+    by_id = {}
     for pd in fn_params(fn):
         decls.setdefault(pd.get('name'), pd)
     for c in walk(fn_body(fn)):
         if c['kind'] == 'VarDecl' and c.get('name'):
             decls.setdefault(c['name'], c)
+            by_id[c['id']] = c
 
     def resolve(name, st):
         d = decls.get(name)
+        live = st.ghost.get('$decl:' + name)
+        if live in by_id:
+            d = by_id[live]       # the same-named local most recently declared on this path
         if d is None:
             if name in exe.tu.enum_consts:
                 return exe.tu.enum_consts[name]
